@@ -1,0 +1,104 @@
+// Copyright Amazon.com, Inc. or its affiliates. All Rights Reserved.
+// SPDX-License-Identifier: Apache-2.0
+
+//go:build verif
+
+// Package verifhook provides named pause points used by the out-of-tree
+// verification harness. With the "verif" build tag a harness can install a
+// callback that is invoked (on the goroutine that reached the point) every
+// time a point is hit; the callback may block, which delays that goroutine
+// and nothing else. Points never return values and never change data.
+package verifhook
+
+import (
+	"os"
+	"strconv"
+	"strings"
+	"sync"
+	"sync/atomic"
+	"time"
+)
+
+var (
+	handler atomic.Pointer[func(name string)]
+
+	mu   sync.Mutex
+	hits = map[string]int{}
+
+	envOnce  sync.Once
+	envPlans map[string]envPlan
+)
+
+type envPlan struct {
+	sleep time.Duration
+	nth   int // 0 = every hit
+}
+
+// Set installs (or, with nil, removes) the callback invoked at every point.
+func Set(f func(name string)) {
+	if f == nil {
+		handler.Store(nil)
+		return
+	}
+	handler.Store(&f)
+}
+
+// Hits returns a copy of the per-point hit counters.
+func Hits() map[string]int {
+	mu.Lock()
+	defer mu.Unlock()
+	res := make(map[string]int, len(hits))
+	for k, v := range hits {
+		res[k] = v
+	}
+	return res
+}
+
+// ResetHits clears the hit counters.
+func ResetHits() {
+	mu.Lock()
+	defer mu.Unlock()
+	hits = map[string]int{}
+}
+
+// loadEnv parses VERIF_HOOKS="name=sleep:30ms,other=sleep:5ms@2" (the
+// optional @n restricts the delay to the n-th hit). It is meant for the
+// separate-process engine, where no callback can be installed.
+func loadEnv() {
+	envPlans = map[string]envPlan{}
+	for _, item := range strings.Split(os.Getenv("VERIF_HOOKS"), ",") {
+		kv := strings.SplitN(strings.TrimSpace(item), "=", 2)
+		if len(kv) != 2 || !strings.HasPrefix(kv[1], "sleep:") {
+			continue
+		}
+		spec := strings.TrimPrefix(kv[1], "sleep:")
+		nth := 0
+		if at := strings.LastIndex(spec, "@"); at >= 0 {
+			nth, _ = strconv.Atoi(spec[at+1:])
+			spec = spec[:at]
+		}
+		d, err := time.ParseDuration(spec)
+		if err != nil {
+			continue
+		}
+		envPlans[kv[0]] = envPlan{sleep: d, nth: nth}
+	}
+}
+
+// Point marks a named location between two critical sections.
+func Point(name string) {
+	mu.Lock()
+	hits[name]++
+	n := hits[name]
+	mu.Unlock()
+
+	if f := handler.Load(); f != nil {
+		(*f)(name)
+		return
+	}
+
+	envOnce.Do(loadEnv)
+	if p, ok := envPlans[name]; ok && (p.nth == 0 || p.nth == n) {
+		time.Sleep(p.sleep)
+	}
+}
